@@ -48,4 +48,19 @@ REG = {
         "partial": ["wire half (data written with one revision read with the other) is covered by the wire group"],
         "assumptions": ["Model/Layout.lean mirrors DelimitedType.__init__ (bit length set from extent and alignment only)"],
     },
+    "C16": {
+        "module": "Props.C16",
+        "suites": [("cost", (500, 15000))],
+        "rule": "random type shapes (depth 1-4: arrays of sub-byte and byte-aligned elements, structures, unions, delimited types) instantiated at two scales with capacities/extents "
+                "congruent modulo 64: a few hundred, and 2**40..2**63; the property's query script (min/max/extent/fixed_length, byte alignment of the type and every field offset, ==, hash) "
+                "is run on both with enumeration counters installed from the harness; non-trivial = accepted shape of depth >= 1; distinct = distinct pair",
+        "technique": "Lean 4 bound on a cost model of the symbolic solver (independent of repetition counts) + measured enumeration counters of the real library compared with the model and across capacity scales",
+        "level_text": "Cost is modelled as the number of integers passing through itertools.product / combinations_with_replacement and leaf iteration during residue queries. Proved in Lean 4 for all operator trees and "
+                      "divisors: the cost is bounded by a function that never inspects repetition counts or leaf values, residue sets handed to enumeration never exceed the divisor, and for types of the same shape "
+                      "(any capacities, extents, widths) the bound is identical. The real library's counters are compared with the model and across scales on every run.",
+        "level_note": _NOTE + " Wall-clock time and memory are runtime notions: observed with generous thresholds only; memoisation is modelled as 'may only lower the cost'.",
+        "partial": ["wall time and memory are not Lean notions (threshold check only)",
+                    "the memoised cost is bounded by, not equal to, the modelled uncached cost"],
+        "assumptions": ["Op.cost in Model/Bls.lean counts what _symbolic.py enumerates (validated by the counters on every run)"],
+    },
 }
